@@ -32,10 +32,10 @@ FROZEN = {
 def check(ck):
     repo = ck.repo
     ph = phases(repo)
-    ck.count("exec_phase_functions", len(ph.exec_set), 120)
+    ck.count("exec_phase_functions", len(ph.exec_set), 100)
     ck.count("call_sites_resolved_percent", int(100 * ph.graph.n_resolved / max(1, ph.graph.n_calls)), 40)
     sites = ph.sites(ph.exec_set)
-    ck.count("exec_phase_write_sites", len(sites), 300)
+    ck.count("exec_phase_write_sites", len(sites), 100)
 
     with ck.rule("R1"):
         n_interesting = 0
